@@ -12,6 +12,9 @@ LEVEL = "proof"
 
 
 def main() -> int:
+    if os.environ.get("VERIF_TRACE_AFTER"):
+        import faulthandler
+        faulthandler.dump_traceback_later(int(os.environ["VERIF_TRACE_AFTER"]), repeat=True)
     ap = argparse.ArgumentParser()
     ap.add_argument("pid")
     ap.add_argument("--tier", default=os.environ.get("VERIF_TIER", "quick"), choices=["quick", "thorough"])
